@@ -140,6 +140,10 @@ type declGen struct {
 	nsDelim string
 	// field names used in the struct currently being generated (FieldPool)
 	curFields map[string]bool
+	// one level with many sub-commands per declaration at most, and a cap on
+	// the total number of commands (nested by-tag command structs make the
+	// runtime type descriptions grow quadratically)
+	manyCmdsUsed bool
 }
 
 func (g *declGen) field(prefix string) string {
@@ -661,8 +665,12 @@ func (g *declGen) cmd(c *Cmd, depth int) {
 	}
 	if depth < cfg.Depth && pct(t, "hasCmds", cmdPct) {
 		n := rapid.IntRange(1, cfg.Fanout).Draw(t, "ncmds")
-		if pct(t, "manyCmds", 4) {
+		if !g.manyCmdsUsed && depth <= 2 && pct(t, "manyCmds", 4) {
+			g.manyCmdsUsed = true
 			n = rapid.IntRange(9, 13).Draw(t, "manyCmdsN")
+		}
+		if g.nCmd > 40 {
+			n = 1
 		}
 		used := map[string]bool{}
 		for i := 0; i < n; i++ {
